@@ -248,6 +248,18 @@ def execute(plan, ctx):
                 break
         if not shaped:
             continue
+        for a in range(len(cv)):
+            for b in range(a + 1, len(cv)):
+                if qs[a] != qs[b] and isinstance(cv[a], (pd.Series, pd.DataFrame)) and \
+                        (cv[a] is cv[b] or np.shares_memory(cv[a].to_numpy(), cv[b].to_numpy())):
+                    ctx.fail("C18.ci_aliased", f"{name}_ci: the entries for q={qs[a]} and q={qs[b]} are the same object / share memory "
+                             f"(not one entry per requested quantile)")
+                    shaped = False
+                    break
+            if not shaped:
+                break
+        if not shaped:
+            continue
         for a, b in zip(order, order[1:]):
             lo, hi = _num(_values(cv[a])), _num(_values(cv[b]))
             if lo.shape != hi.shape:
